@@ -1006,6 +1006,8 @@ func TestVerifC07(t *testing.T) {
 	}
 	r.Set("bounds", fmt.Sprintf("families=%d (one: 6 retry settings x RetryLevel 0..1 x GET + POST, %d answers x %d verdicts; avail: 8 patterns x WRR/WLC x 12 settings; seq/conc: 2 requests; points/pseq: verdict alphabets at 5 more callback points); max attempts per request 4",
 		len(fams), len(c07answersFull), len(c07verdictsQ)+2*r.Pick(0, 1)))
+	// websocket sessions share the counter: real-time loopback executions, see c07ws_verif_test.go
+	c07wsFamilies(t, r)
 	complete := true
 	var samples int
 	smallIdx := 0
